@@ -562,6 +562,74 @@ def maprewrite(ctx, E, crate):
                    "ids that share a row keep their old number while the table they index is "
                    "renumbered" % (label, en))
     ctx.floor("MAPREWRITE", "element-rewriting loops in map_connection_ids methods", n, 2)
+    # RENUMBER: a counter that hands out the new row numbers (`*map = next; next += 1`) advances
+    # only on the path that has just assigned its value to a table slot - one new number per
+    # *new* row, not per element
+    m = 0
+    for p, f in sorted(crate.fns.items()):
+        if not f.body or not strip_generics(p).endswith("::map_connection_ids") or f.krate != "vibrato":
+            continue
+        fa = E.fa(p)
+        for c, ds in sorted(fa.defs().items()):
+            ds = [d for d in ds if d[2] == "assign"]
+            if len(ds) < 2:
+                continue
+            inits = [d for d in ds if d[3]["k"] == "use" and (op_const(d[3]["op"]) or {}).get("int") == 0]
+            incs = []
+            for d in ds:
+                rv = d[3]
+                if rv["k"] != "use":
+                    continue
+                o = fa.origin(rv["op"])
+                # `c = (c + 1).0` after the overflow assert
+                if o[0] == "place":
+                    plx = op_place(rv["op"])
+                    dx = fa.single_def(plx["l"]) if plx is not None else None
+                    if dx is not None and dx[2] == "assign":
+                        o = ("rv", dx[3])
+                if o[0] == "rv" and o[1]["k"] == "binop" and o[1]["op"].startswith("Add"):
+                    a, b_ = o[1]["a"], o[1]["b"]
+                    pa = op_place(a)
+                    if pa is not None and pa["l"] == c and (op_const(b_) or {}).get("int") == 1:
+                        incs.append(d)
+            if not inits or not incs or len(inits) + len(incs) != len(ds):
+                continue
+            # stores of the counter through a reference (into a table slot)
+            stores = set()
+            for b, i, s0 in fa.stmts():
+                if "lhs" in s0 and s0["lhs"]["p"] and s0["lhs"]["p"][0] == "*" and s0["rv"]["k"] == "use":
+                    pl = op_place(s0["rv"]["op"])
+                    for _ in range(4):
+                        if pl is None or pl["p"]:
+                            break
+                        if pl["l"] == c:
+                            stores.add(b)
+                            break
+                        dx = fa.single_def(pl["l"])
+                        if dx is None or dx[2] != "assign" or dx[3]["k"] != "use":
+                            break
+                        pl = op_place(dx[3]["op"])
+            if not stores:
+                continue
+            for d in incs:
+                ib = d[0]
+                # nearest loop head: a next() call block that dominates the increment
+                heads = [nb for nb, nt in fa.calls()
+                         if any(strip_generics(x).endswith("::next") for x in callee_paths(nt)) and fa.dominates(nb, ib)]
+                if not heads:
+                    continue
+                h = max(heads, key=lambda x: len(fa.dominators().get(x, ())))
+                hs = fa.term(h).get("t")
+                m += 1
+                bad = ib in fa.reachable(hs, avoid=stores | {h}) and ib not in stores
+                names = fa.fn.local_names()
+                ctx.ob("MAPREWRITE", "%s|renumber|%d" % (p, m), not bad, fa.loc(ib),
+                       "the row counter `%s` advances only after its value was assigned to a table slot"
+                       % names.get(c, "_%d" % c) if not bad else
+                       "the row counter `%s` of %s advances on a path that did not assign it to a slot: "
+                       "elements that share a row skip numbers, and later rows are numbered past the "
+                       "size of the matrix part" % (names.get(c, "_%d" % c), "::".join(p.split("::")[-2:])))
+    ctx.floor("MAPREWRITE", "row counters in map_connection_ids methods", m, 2)
 
 
 def run(ctx):
